@@ -4,6 +4,7 @@ import (
 	"fmt"
 	"time"
 
+	"verifsim/c16"
 	"verifsim/c19"
 	"verifsim/core"
 )
@@ -12,6 +13,8 @@ func buildSpec(id, tier string, seed uint64, raceBin, realBin string) (*core.Che
 	switch id {
 	case "C19":
 		return c19.Spec(tier, seed), nil
+	case "C16":
+		return c16.Spec(tier, seed, raceBin), nil
 	}
 	return nil, fmt.Errorf("property %s has no check (see MANIFEST.json not_applicable)", id)
 }
